@@ -25,6 +25,7 @@ import (
 	"github.com/apmckinlay/gsuneido/util/set"
 	"github.com/apmckinlay/gsuneido/util/sortlist"
 	"github.com/apmckinlay/gsuneido/util/str"
+	"github.com/apmckinlay/gsuneido/util/verif"
 )
 
 // Note: there are also Database methods in
@@ -281,6 +282,9 @@ func (db *Database) Ensure(sch *schema.Schema) {
 		}
 	}()
 	ovs := db.buildIndexes(sch.Table, sch.Columns, newIdxs)
+	if verif.On {
+		verif.Gate("alter.built", sch.Table)
+	}
 	db.RunEndExclusive(sch.Table, func() {
 		db.UpdateState(func(state *DbState) {
 			_, meta := state.Meta.Ensure(sch, db.Store) // final run
@@ -498,6 +502,9 @@ func (db *Database) AlterCreate(sch *schema.Schema) {
 	// buildIndexes is potentially slow (if there's a lot of data)
 	// so we don't want to do it inside UpdateState
 	ovs := db.buildIndexes(sch.Table, sch.Columns, sch.Indexes)
+	if verif.On {
+		verif.Gate("alter.built", sch.Table)
+	}
 	db.RunEndExclusive(sch.Table, func() {
 		db.UpdateState(func(state *DbState) {
 			meta := state.Meta.AlterCreate(sch, db.Store)
